@@ -149,7 +149,7 @@ Fixpoint eval_fields (reg : list (nat * regentry)) (l : list (nat * texpr)) : op
     end
   end.
 
-Inductive outcome := OK | ERR | PANIC.
+Inductive outcome := OK | ERR.
 
 (* the place-holder (no fields) is registered and bound first, so that the fields can refer to
    the struct itself; when a field fails to evaluate the place-holder stays *)
@@ -162,7 +162,7 @@ Definition declare (st : state) (s : nat) (l : list (nat * texpr)) : outcome * s
   end.
 
 (* ---------- the language's own Type() of a value ---------- *)
-Inductive tres := TNone | TCrash | TSome (t : ty).
+Inductive tres := TNone | TSome (t : ty).
 (* an entry registered by MakeHash has no TypeCache: reflect.SliceOf / reflect.PtrTo on it panic *)
 Definition has_typecache (e : regentry) : bool := bound_entry e.
 
@@ -180,7 +180,6 @@ Definition arr_type (x : value) (r : tres) : tres :=
     match r with
     | TSome t => TSome (TNamed (NSlice (regname t)))
     | TNone => TNone
-    | TCrash => TCrash
     end.
 
 Fixpoint type_of (st : state) (v : value) : tres :=
@@ -225,7 +224,7 @@ Fixpoint value_ok (st : state) (v : value) : bool :=
   end.
 
 (* ---------- hashutils.go TypeCheckField / HashSet ---------- *)
-Inductive verdict := VOk | VErr | VCrash | VNotSym.
+Inductive verdict := VOk | VErr | VNotSym.
 
 (* the factory used for the check; an instance whose factory has no definition adopts the
    registry's CURRENT definition of its type name (h.GoStructFactory = rt) *)
@@ -239,18 +238,19 @@ Definition adopt (st : state) (i : inst) : inst :=
     end
   end.
 
+Definition is_empty_arr (v : value) : bool := match v with VArr [] => true | _ => false end.
+
+(* hashutils.go TypeCheckField, the part after the declared type was found (as of d20da0f / 1d0c785) *)
 Definition check_value (st : state) (dt : ty) (v : value) : verdict :=
   match type_of st v with
-  | TCrash => VCrash
   | TNone =>
     match v with
     | VNil => VOk                                  (* *SexpSentinel *)
-    | VArr (_ :: _) => VCrash                      (* falls out of the switch; obsTyp.RegisteredName on nil *)
-    | _ => VErr                                    (* "has nil Type" *)
+    | _ => VErr                                    (* untyped array / "has nil Type" *)
     end
   | TSome ot =>
     if ty_eqb ot dt then VOk
-    else if ty_eqb ot (TNamed NEmpty) && is_slice_name (regname dt) then VOk
+    else if is_empty_arr v && ty_eqb ot (TNamed NEmpty) && is_slice_name (regname dt) then VOk
     else VErr
   end.
 
@@ -292,7 +292,6 @@ Fixpoint check_record (st : state) (i : inst) (l : list (key * value)) : verdict
   | (k, v) :: r =>
     match fst (type_check_field st i k v) with
     | VOk => check_record st i r
-    | VCrash => VCrash
     | _ => VErr
     end
   end.
@@ -327,14 +326,9 @@ Inductive op :=
 | DerefSet (id : nat) (v : value)                             (* (derefSet (& v<id>) v) *)
 | Decode (ko : bool) (id s : nat) (args : list (nat * value)). (* (def v<id> (unjson ..)) with/without zKeyOrder *)
 
-Definition of_verdict_recovered (vd : verdict) : outcome :=
-  match vd with VOk | VNotSym => OK | _ => ERR end.
-Definition of_verdict_bare (vd : verdict) : outcome :=
-  match vd with VOk | VNotSym => OK | VCrash => PANIC | VErr => ERR end.
-(* hset is a builtin called through CallUserFunction, which recovers panics; set / infix assignment
-   run in the VM loop without recover *)
-Definition route_outcome (r : route) (vd : verdict) : outcome :=
-  match r with RHset => of_verdict_recovered vd | _ => of_verdict_bare vd end.
+(* every Go panic site of these routes is gone (d20da0f), so all routes report alike *)
+Definition of_verdict (vd : verdict) : outcome :=
+  match vd with VOk | VNotSym => OK | VErr => ERR end.
 Definition route_key_ok (r : route) (k : key) : bool :=
   match r, k with
   | RHset, _ => true
@@ -377,7 +371,7 @@ Definition step_op (st : state) (o : op) : outcome * state :=
       | None => (ERR, st)
       | Some i =>
         let '(vd, i') := hash_set st i k v in
-        (route_outcome r vd, put st id i')
+        (of_verdict vd, put st id i')
       end
   | Nested id f g v =>
     if negb (value_ok st v) then (ERR, st)
@@ -391,7 +385,7 @@ Definition step_op (st : state) (o : op) : outcome * state :=
           | None => (ERR, st)
           | Some ij =>
             let '(vd, ij') := hash_set st ij (KSym g) v in
-            (of_verdict_bare vd, put st j ij')
+            (of_verdict vd, put st j ij')
           end
         | Some VHash => (OK, st)
         | _ => (ERR, st)
@@ -606,21 +600,24 @@ Definition field_okb (st : state) (d : fields) (kv : key * value) : bool :=
   | KSym f => match lookup_field d f with Some dt => spec_conforms st (snd kv) dt | None => false end
   | _ => false
   end.
+(* declared types never mention the generic slice type "[]" (no type expression denotes it) *)
+Fixpoint wf_name (n : tname) : bool :=
+  match n with NEmpty => false | NSlice t | NPtr t => wf_name t | _ => true end.
+Definition wf_ty (t : ty) : bool := wf_name (regname t).
+Definition entry_okb (e : regentry) : bool :=
+  match re_defn e with Some d => forallb (fun ft => wf_ty (snd ft)) d | None => true end.
+Definition reg_okb (r : list (nat * regentry)) : bool := forallb (fun p => entry_okb (snd p)) r.
 Definition inst_okb (st : state) (i : inst) : bool :=
+  entry_okb (i_fac i) &&
   match re_defn (i_fac i) with
   | None => true
   | Some d => forallb (field_okb st d) (i_fields i)
   end.
-Definition invb (st : state) : bool := forallb (fun p => inst_okb st (snd p)) (st_store st).
+Definition sinvb (st : state) : bool := forallb (fun p => inst_okb st (snd p)) (st_store st).
+Definition invb (st : state) : bool := reg_okb (st_reg st) && sinvb st.
 
 (* ---------- side conditions of the theorems (each excluded case is a listed finding) ---------- *)
-(* the instance was created with the definition its type name has NOW; no array whose (nested) first
-   element has a type without TypeCache *)
-Fixpoint no_fallback (st : state) (v : value) : bool :=
-  match v with
-  | VArr (x :: _) => negb (arr_fallback x (type_of st x)) && no_fallback st x
-  | _ => true
-  end.
+(* the instance was created with the definition its type name has NOW *)
 Definition value_clean (st : state) (v : value) : bool :=
   match v with
   | VInst j =>
@@ -631,7 +628,7 @@ Definition value_clean (st : state) (v : value) : bool :=
                  end
     | None => true
     end
-  | _ => no_fallback st v
+  | _ => true
   end.
 Definition key_clean (k : key) : bool := match k with KSym _ => true | _ => false end.
 Definition typed_inst (i : inst) : bool := match re_defn (i_fac i) with Some _ => true | None => false end.
